@@ -170,8 +170,11 @@ def constructor(rep, idx, ctor):
     DW = kwarg(sig, 'data_width')
     env = {"DW": DW}
     want_aw = ctor.parse("max(0, csr_bus.addr_width - exact_log2(DW // csr_bus.data_width))", env)
-    rep.check(kwarg(sig, 'addr_width') == want_aw, "C10.5", site,
-              "Wishbone addr_width == CSR addr_width - log2(ratio)", f"is {ir.show(kwarg(sig, 'addr_width'))}; expected {ir.show(want_aw)}")
+    got_aw = kwarg(sig, 'addr_width')
+    same_aw = got_aw == want_aw or (got_aw is not None and ir.hoist_phi(got_aw, ctor.nctx if hasattr(ctor, 'nctx') else ir._EMPTY) ==
+                                    ir.hoist_phi(want_aw, ctor.nctx if hasattr(ctor, 'nctx') else ir._EMPTY))
+    rep.check(same_aw, "C10.5", site,
+              "Wishbone addr_width == CSR addr_width - log2(ratio)", f"is {ir.show(got_aw)}; expected {ir.show(want_aw)}")
     rep.check(kwarg(sig, 'granularity') == ctor.parse("csr_bus.data_width"), "C10.5", site,
               "Wishbone granularity == CSR data width", f"is {ir.show(kwarg(sig, 'granularity'))}")
     dw_ok = DW == ctor.parse("phi(data_width is None, csr_bus.data_width, data_width)") or \
